@@ -26,6 +26,7 @@ Observables per generated triangle t (1-4 slices, Cell / CumulativeCell / Increm
 import dataclasses
 import io
 import json
+import warnings
 import os
 import tempfile
 
@@ -35,6 +36,7 @@ import common
 from common import call, w_date, w_rat, w_val, w_kind
 import gen
 import bermuda
+import bermuda.io
 from bermuda import Cell, CumulativeCell, IncrementalCell, Metadata, Triangle
 
 
@@ -133,8 +135,17 @@ _NONDYADIC = [0.1, 1 / 3, 2.675, 1e-7, 123456.789, 1e22, 1.7976931348623157e308,
               -0.30000000000000004, 9007199254740993.0]
 
 
+_LONG = [255, 256, 257, 300, 1000]      # around and beyond any "long list" threshold a decoder could special-case
+
+
 def rand_json_value(rng, nondyadic=False):
     k = rng.choice(["none", "int", "int", "float", "float", "iarr", "farr", "farr0", "arr1"])
+    if k in ("iarr", "farr") and rng.random() < 0.04:
+        # long sample vectors (posterior draws): the kind of every element and the dtype must survive, too
+        n = rng.choice(_LONG)
+        if k == "iarr":
+            return np.array([rng.randrange(-4096, 4096) for _ in range(n)], dtype=np.int64)
+        return np.array([rng.choice([gen.dyadic(rng, -64, 64), 3.0, 0.0]) for _ in range(n)], dtype=np.float64)
     if k == "none":
         return None
     if k == "int":
@@ -358,6 +369,13 @@ def prime(rng, t, td, state):
 
 # ---- implementation routes ----------------------------------------------------------------------
 
+def quiet(fn, *a, **kw):
+    """call a deprecated entry point with its DeprecationWarning suppressed"""
+    with warnings.catch_warnings():
+        warnings.simplefilter("ignore")
+        return fn(*a, **kw)
+
+
 def impl_routes(t, td):
     """every export/import route of the property; returns (asts, loads): name -> ('ok', x) | ('err', cls)"""
     asts, loads = {}, {}
@@ -387,6 +405,15 @@ def impl_routes(t, td):
         if asts["to_dict()"][0] == "ok":
             loads["from_dict(to_dict())"] = call(Triangle.from_dict, asts["to_dict()"][1])
         loads["from_dict(json.loads)"] = call(Triangle.from_dict, json.loads(s))
+        # the deprecated entry points (io/json.py:36-51) are still public: same round trips through them
+        loads["triangle_json_loads (deprecated)"] = call(quiet, bermuda.io.triangle_json_loads, s)
+        loads["triangle_json_load(path) (deprecated)"] = call(quiet, bermuda.io.triangle_json_load, path)
+
+        def dep_handle():
+            with open(path) as f:
+                return quiet(bermuda.io.triangle_json_load, f)
+        loads["triangle_json_load(handle) (deprecated)"] = call(dep_handle)
+        loads["triangle_json_loads(date_format) (deprecated)"] = call(quiet, bermuda.io.triangle_json_loads, s, "%Y-%m-%d")
     return asts, loads
 
 
@@ -492,6 +519,11 @@ def correspondence(ctx):
             doc = plain_document(rng, t)
             res_d = call(Triangle.from_dict, doc)
             res_s = call(bermuda.json_string_to_triangle, json.dumps(doc))
+            if i % 3 == 0:
+                res_dep = call(quiet, bermuda.io.triangle_json_loads, json.dumps(doc))
+                if dump(res_dep) != dump(res_s):
+                    ctx.fail("triangle_json_loads (deprecated) and json_string_to_triangle disagree on a plain document",
+                             {"doc": tag(doc)})
             ctx.count("plain/docs")
             ctx.case(digest=json.dumps(tag(doc), sort_keys=True), nontrivial=len(cells) > 0)
             case = {"doc": tag(doc)}
@@ -587,8 +619,8 @@ if __name__ == "__main__":
         correspondence=correspondence, level="proof",
         rule="random triangles (1-4 slices differing in one attribute incl. only loss_details / None vs '' / limit "
              "int vs float vs None; Cell, CumulativeCell, IncrementalCell; regular, ragged, day-level; per field a "
-             "random kind None/int/float/int64 array/float64 array/empty array/size-1 array; bool, int and float "
-             "details) x every export and import route; a non-dyadic float stream; documents written by the "
+             "random kind None/int/float/int64 array/float64 array (4% of them 255-1000 elements long)/empty array/size-1 array; bool, int and float "
+             "details) x every export and import route (incl. the deprecated triangle_json_load(s)); a non-dyadic float stream; documents written by the "
              "harness's own serializer; an out-of-domain stream (model vs implementation only). distinct = distinct "
              "canonical input dump; non-trivial = at least one cell",
         assumptions=["risk_basis is not None (reads back as 'Accident')",
